@@ -9,7 +9,8 @@
 2. The harness formats each (format, gamertag) with fmt.Sprintf as the call site does, calls
    the real javaCompatibleUsername, adds random strings (invalid UTF-8, odd formats), and
    calls BedrockData.JavaUuid for small / realistic / adjacent / huge / negative / repeated
-   XUIDs, twice each with different other fields.
+   XUIDs, twice each with different other fields; then several goroutines derive UUIDs for
+   XUIDs of that set at the same time.
 3. TLC judges every name (valid and equal to the reference) and every UUID (RFC 4122 variant
    and version bits, equal for equal XUIDs, different for different XUIDs over the whole run).
 """
@@ -68,7 +69,8 @@ def run(ctx):
             ctx.finding("name:%s" % kind, "javaCompatibleUsername(%r) = %r" % (inp, out), bad)
         else:
             x = bytes(bad["xuid"]).decode()
-            ctx.finding("uuid:%s" % ("unstable" if bad["uuid"] != bad["again"] else "layout-or-collision"),
+            ctx.finding("uuid:%s%s" % ("concurrent:" if bad.get("conc") else "",
+                                       "unstable" if bad["uuid"] != bad["again"] else "layout-collision-or-changed"),
                         "JavaUuid for xuid %s = %s / %s" % (x, bytes(bad["uuid"]).hex(), bytes(bad["again"]).hex()), bad)
         recs = recs[matched + 1:]
         tries += 1
@@ -77,7 +79,7 @@ def run(ctx):
         path = ctx.path("rest%d.ndjson" % tries)
         vlib.write_ndjson(path, recs)
     ctx.traces_validated += judged
-    if not st["names_changed"] or not st["names_truncated"] or not st["uuid_repeats"]:
+    if not st["uuids_computed_concurrently"] or not st["names_changed"] or not st["names_truncated"] or not st["uuid_repeats"]:
         raise vlib.ToolError("classes not exercised: %s" % st)
     cov = {
         "samples": st["samples"],
@@ -90,6 +92,7 @@ def run(ctx):
         "names_longer_than_16": st["names_truncated"],
         "uuids": st["uuids"],
         "uuid_repeats": st["uuid_repeats"],
+        "uuids_computed_concurrently": st["uuids_computed_concurrently"],
         "exhaustive": False,
     }
     return ctx.finish("model_checking", cov, [
